@@ -22,6 +22,7 @@ SecParam(suite) == suite \div 2
 \* ---- C13 ------------------------------------------------------------------
 PVerify ==
   LET unchanged == \A j \in 1 .. Len(Ev.alpha) : Ev.alpha[j] = 0
+      \* (edits named "forged:.." / "mauled:.." are signatures assembled without the secret key)
       expected == \/ (Ev.stmt = "same" /\ Ev.edit = "none")
                   \/ (Ev.stmt = "derived" /\ (unchanged \/ "F7" \in Dev))
   IN  IsTrue(Ev.res) = expected
@@ -69,6 +70,12 @@ PMask ==
         \/ (Ev.kind = "s/s'" /\ Ev.path \in LeakyQuot /\ Ev.secret = "e")
 \* (drift) the requested lengths of the draws; not a verdict
 PMaskLens == TRUE
+PMaskSummary == Ev.responses >= 1 /\ Ev.challenges >= 1
+\* no response is a function of a secret alone, no two responses share their blinding
+PUnblinded == Len(Ev.hits) = 0
+PSharedBlinding == Len(Ev.hits) = 0
+\* the blinding draws of proofs made on different threads (and one after the other) are all different
+PFresh == Ev.distinct = Ev.draws /\ Ev.draws >= 10
 
 \* ---- C18 ------------------------------------------------------------------
 PKeyFacts ==
@@ -96,6 +103,10 @@ Pred ==
     [] Ev.op = "CLDictionary" -> PDictionary
     [] Ev.op = "CLMask"       -> PMask
     [] Ev.op = "CLMaskLens"   -> PMaskLens
+    [] Ev.op = "CLMaskSummary" -> PMaskSummary
+    [] Ev.op = "CLUnblinded"  -> PUnblinded
+    [] Ev.op = "CLSharedBlinding" -> PSharedBlinding
+    [] Ev.op = "CLFresh"      -> PFresh
     [] Ev.op = "CLKeyFacts"   -> PKeyFacts
     [] Ev.op = "CLRandomFacts" -> PRandomFacts
 
